@@ -935,4 +935,114 @@ def rule_p(ctx: Ctx) -> None:
     wildcard_pair_contract(ctx, 'C11.p')
 
 
-RULES = [rule_a, rule_b, rule_c, rule_d, rule_e, rule_f, rule_g, rule_h, rule_i, rule_j, rule_k, rule_l, rule_m, rule_n, rule_o, rule_p]
+def rule_q(ctx: Ctx) -> None:
+    """find() / findall() / iterfind() on a schema select *schema nodes*: element declarations, but also the wildcard that matches a step (a child of
+    an xs:anyType element).  A result is used as an element declaration - an attribute that XsdElement has and XsdAnyElement has not - only after an
+    isinstance test; otherwise a document decides whether validation ends in AttributeError."""
+    rule = 'C11.q'
+    idx = ctx.idx
+    E = idx.cls('xmlschema.validators.elements.XsdElement')
+    W = idx.cls('xmlschema.validators.wildcards.XsdAnyElement')
+
+    def elem_only(a: str) -> bool:
+        return bool(E.find_attr(a) or E.find_method(a)) and not bool(W.find_attr(a) or W.find_method(a))
+
+    def is_source(e: ast.AST) -> bool:
+        return any(isinstance(c.func, ast.Attribute) and c.func.attr in ('find', 'findall', 'iterfind') and text(c.func.value) in ('self', 'schema')
+                   for c in calls(e))
+    n_src = n_use = 0
+    for f in idx.iter_functions('validators.schemas'):
+        if isinstance(f.node, ast.Lambda):
+            continue
+        tainted: set[str] = set()
+        changed = True
+        stmts = [x for x in ast.walk(f.node) if isinstance(x, (ast.Assign, ast.For))]
+        while changed:
+            changed = False
+            for x in stmts:
+                src = x.value if isinstance(x, ast.Assign) else x.iter
+                hit = is_source(src) or any(isinstance(y, ast.Name) and y.id in tainted for y in ast.walk(src))
+                if not hit:
+                    continue
+                tgts = x.targets if isinstance(x, ast.Assign) else [x.target]
+                for t in tgts:
+                    for y in ast.walk(t):
+                        if isinstance(y, ast.Name) and y.id not in tainted and isinstance(t, (ast.Name, ast.Tuple)):
+                            tainted.add(y.id)
+                            changed = True
+        if not tainted:
+            continue
+        n_src += 1
+        g = cfg_of(ctx, f)
+        for x in ast.walk(f.node):
+            if not (isinstance(x, ast.Attribute) and isinstance(x.ctx, ast.Load) and isinstance(x.value, ast.Name) and x.value.id in tainted and elem_only(x.attr)):
+                continue
+            owners = g.owners(x)
+            if not owners:
+                continue
+            n_use += 1
+            v = x.value.id
+            ok = False
+            for o in owners:
+                gs = guards(ctx, f, o)
+                if any((lab == 'T' and t.replace(' ', '') == f'isinstance({v},XsdElement)') or (lab == 'F' and t.replace(' ', '') == f'notisinstance({v},XsdElement)') for t, lab in gs):
+                    ok = True
+                # the test and the use in one expression: `isinstance(v, XsdElement) and v.attr`
+                if o.kind in ('if', 'while') or True:
+                    for b in ast.walk(o.ast) if o.ast is not None else []:
+                        if isinstance(b, ast.BoolOp) and isinstance(b.op, ast.And) and any(text(u).replace(' ', '') == f'isinstance({v},XsdElement)' for u in b.values) \
+                                and any(x is y for u in b.values for y in ast.walk(u)):
+                            ok = True
+            ctx.ob(rule, f'{f.qualname.split(".", 2)[-1]}: `{text(x)}` reads an element-only attribute of a schema node after an isinstance test', f.loc(x), ok,
+                   '' if ok else f'`{v}` comes from find()/findall() on the schema and may be the wildcard that matches the step: XsdAnyElement has no `{x.attr}` - e.g. lazy validation '
+                   '(lazy depth 2) of <r><a><c/></a></r> against <xs:element name="r"/> ends in AttributeError', key=f'{f.qualname}|node-attr|{v}.{x.attr}')
+    ctx.floor(rule, 'functions using schema-node lookups', n_src, 2)
+    ctx.floor(rule, 'element-only attribute reads on looked-up schema nodes', n_use, 1)
+    ctx.explain('C11.q: names bound (directly, through loops or wrappers) from schema.find()/findall()/iterfind() in validators/schemas.py; a read of an attribute that XsdElement defines and '
+                'XsdAnyElement does not (class table) must be control dependent on isinstance(name, XsdElement).')
+
+
+def _mentions_instance_tag(f: FuncInfo, e: ast.AST, depth: int = 0) -> bool:
+    """the expression is built from tags of the XML instance: a `.tag` read, a parameter called `tag`, or a local defined by such an expression."""
+    for x in ast.walk(e):
+        if isinstance(x, ast.Attribute) and x.attr == 'tag':
+            return True
+        if isinstance(x, ast.Name) and x.id == 'tag' and 'tag' in f.params:
+            return True
+        if isinstance(x, ast.Name) and depth < 2 and x.id not in f.params:
+            defs = [s_.value for s_ in ast.walk(f.node) if isinstance(s_, ast.Assign) and len(s_.targets) == 1 and text(s_.targets[0]) == x.id]
+            if defs and any(isinstance(d, (ast.JoinedStr, ast.BinOp)) and _mentions_instance_tag(f, d, depth + 1) for d in defs):
+                return True
+    return False
+
+
+def rule_r(ctx: Ctx) -> None:
+    """The drivers look the declaration of a lazily loaded chunk up with an XPath expression *written from the tags of the instance*.  A tag is any
+    `{namespace name}local`, and a namespace name is an arbitrary string: `(:` opens an XPath comment, `{` or `:)` break the braced-URI syntax.  The parse
+    of such an expression therefore sits under a handler for the XPath parser's errors."""
+    rule = 'C11.r'
+    n = 0
+    for f in ctx.idx.iter_functions('validators.schemas'):
+        if isinstance(f.node, ast.Lambda):
+            continue
+        parents = None
+        for c in calls(f.node):
+            if not (isinstance(c.func, ast.Attribute) and c.func.attr in ('find', 'findall', 'iterfind') and text(c.func.value) in ('self', 'schema') and c.args):
+                continue
+            if not _mentions_instance_tag(f, c.args[0]):
+                continue
+            n += 1
+            parents = parents or enclosing_map(f.node)
+            names = handler_classes(ctx, f, site_handlers(f, c, parents))
+            ok = bool({'ElementPathError', 'ElementPathSyntaxError', 'Exception', 'BaseException'} & names) or \
+                bool({'ElementPathSyntaxError', 'ElementPathTypeError'} <= names)
+            ctx.ob(rule, f'{f.qualname.split(".", 2)[-1]}: the XPath expression `{text(c.args[0])[:40]}` written from instance tags is parsed under a handler for ElementPathError', f.loc(c), ok,
+                   '' if ok else 'no handler: <r><a xmlns="(:"/></r> (or xmlns="{", xmlns=":)") as a lazy resource makes the XPath parser raise ElementPathSyntaxError / ElementPathTypeError out '
+                   'of iter_errors() / is_valid() - not an exception of the library', key=f'{f.qualname}|instance-xpath|{text(c.args[0])[:30]}')
+    ctx.floor(rule, 'schema lookups with an XPath expression written from instance tags', n, 2)
+    ctx.trusted.append('raise-set of the elementpath parser on a malformed expression: subclasses of ElementPathError')
+    ctx.explain('C11.r: calls find()/findall()/iterfind() on a schema in validators/schemas.py whose path argument mentions a `.tag`, the `tag` parameter or a local defined from them; '
+                'handler coverage for ElementPathError.')
+
+
+RULES = [rule_a, rule_b, rule_c, rule_d, rule_e, rule_f, rule_g, rule_h, rule_i, rule_j, rule_k, rule_l, rule_m, rule_n, rule_o, rule_p, rule_q, rule_r]
